@@ -62,10 +62,25 @@ package planner
 //@   requires p != nil && p.stm != nil && p.tbl != nil && cls != nil && lo != nil
 //@   atcall simpleFetch assert[limit-push-down@C12] stmLimit != 0 ==> len(p.stm.pattern) == 1 && len(p.stm.groupBy) == 0 && len(p.stm.havingExpression) == 0 && len(p.stm.orderBy) == 0
 
+// simpleFetch runs the storage lookups of one clause on producer/consumer goroutines: outside the
+// subset. ASSUMED: it may change anything reachable (modifies-everything) and returns either an
+// error or a table of its own that nobody else holds, unlocked.
+//@ func simpleFetch
+//@   nobody
+//@   opt modifies-everything
+//@   ensures[table-or-error] (result0 != nil && result1 == nil) || (result0 == nil && result1 != nil)
+//@   ensures[own-table] result0 != nil ==> result0.#lock_mu == 0
+
+// addSpecifiedData, the part after the fetch (C10): for an OPTIONAL clause the row it was called for
+// is never lost - some row of the table extends it when the call succeeds.
 //@ func (p *queryPlan) addSpecifiedData
 //@   opt modifies-everything
-//@   opt obligations assert
+//@   opt obligations assert post:optional invariant
 //@   requires p != nil && p.stm != nil && p.tbl != nil && cls != nil && lo != nil
+//@   requires[row-has-bindings] r != nil && !has(r, "") && (exists k string :: {has(r, k)} has(r, k))
+//@   ensures[optional-keeps-row@C10] result == nil && cls.Optional ==> (exists j int :: {p.tbl.Data[j]} 0 <= j && j < len(p.tbl.Data) && extends(p.tbl.Data[j], r))
+//@   loop 0 invariant[optional-null-row] nr != nil && fresh(nr) && nr != r && r != nil && !has(r, "") && (exists k string :: {has(r, k)} has(r, k))
+//@   loop 1 invariant[optional-row-kept] 0 <= $i && r != nil && !has(r, "") && (exists k string :: {has(r, k)} has(r, k)) && ($i > 0 ==> (exists j int :: {p.tbl.Data[j]} 0 <= j && j < len(p.tbl.Data) && extends(p.tbl.Data[j], r)))
 //@   atcall simpleFetch assert[limit-push-down@C12] stmLimit != 0 ==> len(p.stm.pattern) == 1 && len(p.stm.groupBy) == 0 && len(p.stm.havingExpression) == 0 && len(p.stm.orderBy) == 0
 
 // ---- HAVING as the planner applies it (C13) -------------------------------------------------
@@ -92,3 +107,101 @@ package planner
 //@   loop Filter:0 invariant[kept] forall j int :: {newData[j]} 0 <= j && j < len(newData) ==> call("semantic.Evaluator.Evaluate#0", eval, newData[j]) && (exists i int :: {t.Data[i]} 0 <= i && i < $i && t.Data[i] == newData[j])
 //@   loop Filter:0 invariant[complete] forall i int :: {t.Data[i]} 0 <= i && i < $i && holds(eval, t.Data[i]) ==> (exists j int :: {newData[j]} 0 <= j && j < len(newData) && newData[j] == t.Data[i])
 //@   loop Filter:0 invariant[errors] (deref(addr(ok)) <==> (forall i int :: {t.Data[i]} 0 <= i && i < $i ==> call("semantic.Evaluator.Evaluate#1", eval, t.Data[i]))) && (!deref(addr(ok)) ==> deref(addr(eErr)) != nil)
+
+// ---- Matching one triple against one clause (C03) -------------------------------------------
+//@ props C03 C08
+// Time windows: nil is "unbounded"; later(a, b) is the later lower bound, earlier(a, b) the earlier upper bound.
+//@ spec macro laterOf(a *time.Time, b *time.Time) Bool = a != nil && (b == nil || tinst(deref(a)) > tinst(deref(b)))
+//@ spec macro earlierOf(a *time.Time, b *time.Time) Bool = a != nil && (b == nil || tinst(deref(a)) < tinst(deref(b)))
+
+// updateTimeBounds: a fresh copy of the lookup options whose window is the intersection of the
+// given window with the clause's predicate bounds. The given options are not changed.
+//@ func updateTimeBounds
+//@   requires lo != nil && cls != nil
+//@   ensures[fresh-copy] result != nil && fresh(result) && result.MaxElements == lo.MaxElements && result.FilterOptions == lo.FilterOptions
+//@   ensures[lower-is-the-later-bound] result.LowerAnchor == ite(laterOf(cls.PLowerBound, lo.LowerAnchor), cls.PLowerBound, lo.LowerAnchor)
+//@   ensures[upper-is-the-earlier-bound] result.UpperAnchor == ite(earlierOf(cls.PUpperBound, lo.UpperAnchor), cls.PUpperBound, lo.UpperAnchor)
+//@   ensures[input-untouched] lo.LowerAnchor == old(lo.LowerAnchor) && lo.UpperAnchor == old(lo.UpperAnchor) && lo.MaxElements == old(lo.MaxElements)
+
+// objectToCell: the cell holds exactly the node, predicate or literal the object boxes.
+//@ func objectToCell
+//@   requires o != nil
+//@   ensures[value-or-error] (result0 != nil && result1 == nil) || (result0 == nil && result1 != nil)
+//@   ensures[boxes-the-object] result0 != nil ==> fresh(result0) && result0.S == nil && result0.T == nil && result0.N == o.n && (o.n != nil ==> result0.P == nil && result0.L == nil) && (o.n == nil ==> result0.P == o.p && (o.p != nil ==> result0.L == nil) && (o.p == nil ==> result0.L == o.l))
+//@   ensures[empty-object-is-an-error] result1 != nil <==> (o.n == nil && o.p == nil && o.l == nil)
+
+// cellToObject: nodes, predicates and literals are boxed as they are.
+//@ func cellToObject
+//@   ensures[value-or-error] (result0 != nil && result1 == nil) || (result0 == nil && result1 != nil)
+//@   ensures[nil-cell-is-an-error] c == nil ==> result1 != nil
+//@   ensures[boxes-the-cell] result0 != nil ==> fresh(result0) && (c.N != nil ==> result0.n == c.N && result0.p == nil && result0.l == nil) && (c.N == nil && c.P != nil ==> result0.p == c.P && result0.n == nil && result0.l == nil) && (c.N == nil && c.P == nil && c.L != nil ==> result0.l == c.L && result0.n == nil && result0.p == nil)
+//@   ensures[values-always-convert] c != nil && (c.N != nil || c.P != nil || c.L != nil) ==> result1 == nil
+
+// shouldIgnoreTriple: a triple is dropped exactly when the clause names a predicate (object) id
+// that differs, or asks for a temporal predicate with that id and the triple's is immutable or
+// anchored outside the clause's closed interval.
+//@ spec macro outsideWindow(a *time.Time, lower *time.Time, upper *time.Time) Bool = (lower != nil && tinst(deref(lower)) > tinst(deref(a))) || (upper != nil && tinst(deref(upper)) < tinst(deref(a)))
+//@ spec macro predRejected(p *predicate.Predicate, id string, temporal Bool, anchorBinding string, lower *time.Time, upper *time.Time) Bool = id != "" && (p.id != id || (temporal && anchorBinding == "" && (p.anchor == nil || outsideWindow(p.anchor, lower, upper))))
+//@ func shouldIgnoreTriple
+//@   requires wfTriple(t) && cls != nil
+//@   ensures[no-error] result1 == nil
+//@   ensures[ignored-iff-rejected] result0 <==> (predRejected(t.p, cls.PID, cls.PTemporal, cls.PAnchorBinding, cls.PLowerBound, cls.PUpperBound) || (t.o.p != nil && predRejected(t.o.p, cls.OID, cls.OTemporal, cls.OAnchorBinding, cls.OLowerBound, cls.OUpperBound)))
+
+//@ spec macro r0cell(r table.Row, k string) Bool = r[k] != nil
+
+// tripleToRow: the row a triple contributes for a clause. For every binding, alias and extraction
+// the clause names there is a cell holding exactly that part of the triple (stated for a name that
+// no later field of the clause repeats: a repeated name keeps the last, deeply equal, cell); an
+// extraction that cannot apply yields no row unless the clause is optional (then a NULL cell); a name
+// used for two parts with different values yields no row.
+//@ spec macro sameNode(a *node.Node, b *node.Node) Bool = a != nil && b != nil && deref(a.t) == deref(b.t) && deref(a.id) == deref(b.id)
+//@ func tripleToRow
+//@   opt terminates
+//@   requires wfTriple(t) && cls != nil
+//@   ensures[row-or-error] result0 == nil || result1 == nil
+//@   ensures[fresh-row] result0 != nil ==> fresh(result0)
+//@   ensures[only-the-named-bindings] result0 != nil ==> (forall k string :: {has(result0, k)} has(result0, k) ==> k != "" && r0cell(result0, k) && (k == cls.SBinding || k == cls.SAlias || k == cls.STypeAlias || k == cls.SIDAlias || k == cls.PBinding || k == cls.PAlias || k == cls.PIDAlias || k == cls.PAnchorBinding || k == cls.PAnchorAlias || k == cls.OBinding || k == cls.OAlias || k == cls.OTypeAlias || k == cls.OIDAlias || k == cls.OAnchorBinding || k == cls.OAnchorAlias))
+//@   ensures[SBinding] result0 != nil && cls.SBinding != "" && cls.SAlias != cls.SBinding && cls.STypeAlias != cls.SBinding && cls.SIDAlias != cls.SBinding && cls.PBinding != cls.SBinding && cls.PAlias != cls.SBinding && cls.PIDAlias != cls.SBinding && cls.PAnchorBinding != cls.SBinding && cls.PAnchorAlias != cls.SBinding && cls.OBinding != cls.SBinding && cls.OAlias != cls.SBinding && cls.OTypeAlias != cls.SBinding && cls.OIDAlias != cls.SBinding && cls.OAnchorBinding != cls.SBinding && cls.OAnchorAlias != cls.SBinding ==> has(result0, cls.SBinding) && result0[cls.SBinding].N == t.s && result0[cls.SBinding].S == nil && result0[cls.SBinding].P == nil && result0[cls.SBinding].L == nil && result0[cls.SBinding].T == nil
+//@   ensures[SAlias] result0 != nil && cls.SAlias != "" && cls.STypeAlias != cls.SAlias && cls.SIDAlias != cls.SAlias && cls.PBinding != cls.SAlias && cls.PAlias != cls.SAlias && cls.PIDAlias != cls.SAlias && cls.PAnchorBinding != cls.SAlias && cls.PAnchorAlias != cls.SAlias && cls.OBinding != cls.SAlias && cls.OAlias != cls.SAlias && cls.OTypeAlias != cls.SAlias && cls.OIDAlias != cls.SAlias && cls.OAnchorBinding != cls.SAlias && cls.OAnchorAlias != cls.SAlias ==> has(result0, cls.SAlias) && result0[cls.SAlias].N == t.s && result0[cls.SAlias].S == nil && result0[cls.SAlias].P == nil && result0[cls.SAlias].L == nil && result0[cls.SAlias].T == nil
+//@   ensures[STypeAlias] result0 != nil && cls.STypeAlias != "" && cls.SIDAlias != cls.STypeAlias && cls.PBinding != cls.STypeAlias && cls.PAlias != cls.STypeAlias && cls.PIDAlias != cls.STypeAlias && cls.PAnchorBinding != cls.STypeAlias && cls.PAnchorAlias != cls.STypeAlias && cls.OBinding != cls.STypeAlias && cls.OAlias != cls.STypeAlias && cls.OTypeAlias != cls.STypeAlias && cls.OIDAlias != cls.STypeAlias && cls.OAnchorBinding != cls.STypeAlias && cls.OAnchorAlias != cls.STypeAlias ==> has(result0, cls.STypeAlias) && result0[cls.STypeAlias].S != nil && deref(result0[cls.STypeAlias].S) == deref(t.s.t) && result0[cls.STypeAlias].N == nil && result0[cls.STypeAlias].P == nil && result0[cls.STypeAlias].L == nil && result0[cls.STypeAlias].T == nil
+//@   ensures[SIDAlias] result0 != nil && cls.SIDAlias != "" && cls.PBinding != cls.SIDAlias && cls.PAlias != cls.SIDAlias && cls.PIDAlias != cls.SIDAlias && cls.PAnchorBinding != cls.SIDAlias && cls.PAnchorAlias != cls.SIDAlias && cls.OBinding != cls.SIDAlias && cls.OAlias != cls.SIDAlias && cls.OTypeAlias != cls.SIDAlias && cls.OIDAlias != cls.SIDAlias && cls.OAnchorBinding != cls.SIDAlias && cls.OAnchorAlias != cls.SIDAlias ==> has(result0, cls.SIDAlias) && result0[cls.SIDAlias].S != nil && deref(result0[cls.SIDAlias].S) == deref(t.s.id) && result0[cls.SIDAlias].N == nil && result0[cls.SIDAlias].P == nil && result0[cls.SIDAlias].L == nil && result0[cls.SIDAlias].T == nil
+//@   ensures[PBinding] result0 != nil && cls.PBinding != "" && cls.PAlias != cls.PBinding && cls.PIDAlias != cls.PBinding && cls.PAnchorBinding != cls.PBinding && cls.PAnchorAlias != cls.PBinding && cls.OBinding != cls.PBinding && cls.OAlias != cls.PBinding && cls.OTypeAlias != cls.PBinding && cls.OIDAlias != cls.PBinding && cls.OAnchorBinding != cls.PBinding && cls.OAnchorAlias != cls.PBinding ==> has(result0, cls.PBinding) && result0[cls.PBinding].P == t.p && result0[cls.PBinding].S == nil && result0[cls.PBinding].N == nil && result0[cls.PBinding].L == nil && result0[cls.PBinding].T == nil
+//@   ensures[PAlias] result0 != nil && cls.PAlias != "" && cls.PIDAlias != cls.PAlias && cls.PAnchorBinding != cls.PAlias && cls.PAnchorAlias != cls.PAlias && cls.OBinding != cls.PAlias && cls.OAlias != cls.PAlias && cls.OTypeAlias != cls.PAlias && cls.OIDAlias != cls.PAlias && cls.OAnchorBinding != cls.PAlias && cls.OAnchorAlias != cls.PAlias ==> has(result0, cls.PAlias) && result0[cls.PAlias].P == t.p && result0[cls.PAlias].S == nil && result0[cls.PAlias].N == nil && result0[cls.PAlias].L == nil && result0[cls.PAlias].T == nil
+//@   ensures[PIDAlias] result0 != nil && cls.PIDAlias != "" && cls.PAnchorBinding != cls.PIDAlias && cls.PAnchorAlias != cls.PIDAlias && cls.OBinding != cls.PIDAlias && cls.OAlias != cls.PIDAlias && cls.OTypeAlias != cls.PIDAlias && cls.OIDAlias != cls.PIDAlias && cls.OAnchorBinding != cls.PIDAlias && cls.OAnchorAlias != cls.PIDAlias ==> has(result0, cls.PIDAlias) && result0[cls.PIDAlias].S != nil && deref(result0[cls.PIDAlias].S) == t.p.id && result0[cls.PIDAlias].N == nil && result0[cls.PIDAlias].P == nil && result0[cls.PIDAlias].L == nil && result0[cls.PIDAlias].T == nil
+//@   ensures[PAnchorBinding] result0 != nil && cls.PAnchorBinding != "" && cls.PAnchorAlias != cls.PAnchorBinding && cls.OBinding != cls.PAnchorBinding && cls.OAlias != cls.PAnchorBinding && cls.OTypeAlias != cls.PAnchorBinding && cls.OIDAlias != cls.PAnchorBinding && cls.OAnchorBinding != cls.PAnchorBinding && cls.OAnchorAlias != cls.PAnchorBinding ==> has(result0, cls.PAnchorBinding) && (t.p.anchor != nil ==> result0[cls.PAnchorBinding].T == t.p.anchor && result0[cls.PAnchorBinding].S == nil && result0[cls.PAnchorBinding].N == nil && result0[cls.PAnchorBinding].P == nil && result0[cls.PAnchorBinding].L == nil) && (t.p.anchor == nil ==> cls.Optional && nullCell(result0[cls.PAnchorBinding]))
+//@   ensures[PAnchorAlias] result0 != nil && cls.PAnchorAlias != "" && cls.OBinding != cls.PAnchorAlias && cls.OAlias != cls.PAnchorAlias && cls.OTypeAlias != cls.PAnchorAlias && cls.OIDAlias != cls.PAnchorAlias && cls.OAnchorBinding != cls.PAnchorAlias && cls.OAnchorAlias != cls.PAnchorAlias ==> has(result0, cls.PAnchorAlias) && (t.p.anchor != nil ==> result0[cls.PAnchorAlias].T == t.p.anchor && result0[cls.PAnchorAlias].S == nil && result0[cls.PAnchorAlias].N == nil && result0[cls.PAnchorAlias].P == nil && result0[cls.PAnchorAlias].L == nil) && (t.p.anchor == nil ==> cls.Optional && nullCell(result0[cls.PAnchorAlias]))
+//@   ensures[OBinding] result0 != nil && cls.OBinding != "" && cls.OAlias != cls.OBinding && cls.OTypeAlias != cls.OBinding && cls.OIDAlias != cls.OBinding && cls.OAnchorBinding != cls.OBinding && cls.OAnchorAlias != cls.OBinding ==> has(result0, cls.OBinding) && result0[cls.OBinding].S == nil && result0[cls.OBinding].T == nil && result0[cls.OBinding].N == t.o.n && (t.o.n != nil ==> result0[cls.OBinding].P == nil && result0[cls.OBinding].L == nil) && (t.o.n == nil ==> result0[cls.OBinding].P == t.o.p && (t.o.p != nil ==> result0[cls.OBinding].L == nil) && (t.o.p == nil ==> result0[cls.OBinding].L == t.o.l))
+//@   ensures[OAlias] result0 != nil && cls.OAlias != "" && cls.OTypeAlias != cls.OAlias && cls.OIDAlias != cls.OAlias && cls.OAnchorBinding != cls.OAlias && cls.OAnchorAlias != cls.OAlias ==> has(result0, cls.OAlias) && result0[cls.OAlias].S == nil && result0[cls.OAlias].T == nil && result0[cls.OAlias].N == t.o.n && (t.o.n != nil ==> result0[cls.OAlias].P == nil && result0[cls.OAlias].L == nil) && (t.o.n == nil ==> result0[cls.OAlias].P == t.o.p && (t.o.p != nil ==> result0[cls.OAlias].L == nil) && (t.o.p == nil ==> result0[cls.OAlias].L == t.o.l))
+//@   ensures[OTypeAlias] result0 != nil && cls.OTypeAlias != "" && cls.OIDAlias != cls.OTypeAlias && cls.OAnchorBinding != cls.OTypeAlias && cls.OAnchorAlias != cls.OTypeAlias ==> has(result0, cls.OTypeAlias) && (t.o.n != nil ==> result0[cls.OTypeAlias].S != nil && deref(result0[cls.OTypeAlias].S) == deref(t.o.n.t) && result0[cls.OTypeAlias].N == nil && result0[cls.OTypeAlias].P == nil && result0[cls.OTypeAlias].L == nil && result0[cls.OTypeAlias].T == nil) && (t.o.n == nil ==> cls.Optional && nullCell(result0[cls.OTypeAlias]))
+//@   ensures[OIDAlias] result0 != nil && cls.OIDAlias != "" && cls.OAnchorBinding != cls.OIDAlias && cls.OAnchorAlias != cls.OIDAlias ==> has(result0, cls.OIDAlias) && result0[cls.OIDAlias].S != nil && result0[cls.OIDAlias].N == nil && result0[cls.OIDAlias].P == nil && result0[cls.OIDAlias].L == nil && result0[cls.OIDAlias].T == nil && (t.o.n != nil ==> deref(result0[cls.OIDAlias].S) == deref(t.o.n.id)) && (t.o.n == nil ==> t.o.p != nil && deref(result0[cls.OIDAlias].S) == t.o.p.id)
+//@   ensures[OAnchorBinding] result0 != nil && cls.OAnchorBinding != "" && cls.OAnchorAlias != cls.OAnchorBinding ==> has(result0, cls.OAnchorBinding) && (t.o.p != nil && t.o.p.anchor != nil ==> result0[cls.OAnchorBinding].T == t.o.p.anchor && result0[cls.OAnchorBinding].S == nil && result0[cls.OAnchorBinding].N == nil && result0[cls.OAnchorBinding].P == nil && result0[cls.OAnchorBinding].L == nil) && (t.o.p == nil || t.o.p.anchor == nil ==> cls.Optional && nullCell(result0[cls.OAnchorBinding]))
+//@   ensures[OAnchorAlias] result0 != nil && cls.OAnchorAlias != "" ==> has(result0, cls.OAnchorAlias) && (t.o.p != nil && t.o.p.anchor != nil ==> result0[cls.OAnchorAlias].T == t.o.p.anchor && result0[cls.OAnchorAlias].S == nil && result0[cls.OAnchorAlias].N == nil && result0[cls.OAnchorAlias].P == nil && result0[cls.OAnchorAlias].L == nil) && (t.o.p == nil || t.o.p.anchor == nil ==> cls.Optional && nullCell(result0[cls.OAnchorAlias]))
+//@   ensures[no-anchor-no-row] !cls.Optional && (cls.PAnchorBinding != "" || cls.PAnchorAlias != "") && t.p.anchor == nil ==> result0 == nil
+//@   ensures[no-object-anchor-no-row] !cls.Optional && (cls.OAnchorBinding != "" || cls.OAnchorAlias != "") && (t.o.p == nil || t.o.p.anchor == nil) ==> result0 == nil
+//@   ensures[no-object-type-no-row] !cls.Optional && cls.OTypeAlias != "" && t.o.n == nil ==> result0 == nil
+//@   ensures[no-object-id-no-row] cls.OIDAlias != "" && t.o.n == nil && t.o.p == nil ==> result0 == nil
+//@   ensures[subject-object-same-name-must-agree] cls.SBinding != "" && cls.SBinding == cls.OBinding && (t.o.n == nil || !sameNode(t.s, t.o.n)) ==> result0 == nil
+//@   ensures[subject-predicate-same-name-never-agree] cls.SBinding != "" && cls.SBinding == cls.PBinding ==> result0 == nil
+//@   ensures[predicate-object-same-name-must-agree] cls.PBinding != "" && cls.PBinding == cls.OBinding && (t.o.p == nil || t.o.p.id != t.p.id) ==> result0 == nil
+
+// getBoundValueForComponent: the value a row gives to a component through its binding or alias -
+// one of the row's cells under one of the given names, or nothing; with a single name present it is
+// that cell.
+//@ func getBoundValueForComponent
+//@   opt terminates
+//@   ensures[a-cell-of-the-row] result != nil ==> (exists j int :: {bs[j]} 0 <= j && j < len(bs) && has(r, bs[j]) && r[bs[j]] == result)
+//@   ensures[nothing-bound-nothing-returned] (forall j int :: {bs[j]} 0 <= j && j < len(bs) ==> !has(r, bs[j])) ==> result == nil
+//@   ensures[single-name] len(bs) == 1 && has(r, bs[0]) ==> result == r[bs[0]]
+//@   loop 0 invariant 0 <= $i && $i <= len(bs) && len(cs) <= $i && (forall q int :: {cs[q]} 0 <= q && q < len(cs) ==> (exists j int :: {bs[j]} 0 <= j && j < $i && has(r, bs[j]) && r[bs[j]] == cs[q])) && ((forall j int :: {bs[j]} 0 <= j && j < $i ==> !has(r, bs[j])) ==> len(cs) == 0) && ($i >= 1 && has(r, bs[0]) ==> len(cs) >= 1 && cs[0] == r[bs[0]]) && ($i == 1 ==> len(cs) <= 1)
+
+// updateTimeBoundsForRow: the window of updateTimeBounds, further narrowed by the anchors the row
+// binds to the clause's lower / upper bound aliases.
+//@ spec macro aliasTime(r table.Row, a string) *time.Time = ite(a != "" && has(r, a), r[a].T, nil)
+//@ func updateTimeBoundsForRow
+//@   requires lo != nil && cls != nil && wfRowCells(r)
+//@   ensures[value-or-error] (result0 != nil && result1 == nil) || (result0 == nil && result1 != nil)
+//@   ensures[non-time-alias-is-an-error] (cls.PLowerBoundAlias != "" && has(r, cls.PLowerBoundAlias) && r[cls.PLowerBoundAlias].T == nil) ==> result1 != nil
+//@   ensures[lower-never-widens] result0 != nil && lo.LowerAnchor != nil ==> result0.LowerAnchor != nil && tinst(deref(result0.LowerAnchor)) >= tinst(deref(lo.LowerAnchor))
+//@   ensures[upper-never-widens] result0 != nil && lo.UpperAnchor != nil ==> result0.UpperAnchor != nil && tinst(deref(result0.UpperAnchor)) <= tinst(deref(lo.UpperAnchor))
+//@   ensures[input-untouched] lo.LowerAnchor == old(lo.LowerAnchor) && lo.UpperAnchor == old(lo.UpperAnchor)
+//@ spec macro wfRowCells(r table.Row) Bool = forall k string :: {has(r, k)} has(r, k) ==> r[k] != nil
